@@ -8,6 +8,18 @@ checks = {
    technique="stateless model checking of the real kernel (controlled aio.AIO, DFS over all interleavings/faults/crashes with state-key pruning) + table-transition and observation monitors",
    text="Exhaustive exploration of the real coroutines, kernel and SQLite store: every interleaving of the store/router/sender submissions of 2-3 concurrent requests on one promise id with the time-out sweep, a clock step onto the deadline, one injected before/after-commit failure and one crash/restart, from five setup states. At every commit the promises table is compared row by row with its predecessor (write-once completion, immutable creation fields, no disappearance) and every promise object that leaves the server (responses, search pages, claim payloads, notifications) is compared field by field with the row.",
    note="Bounds: 2 concurrent clients (3 in thorough), 1 fault, 1 crash, one promise id plus a root. A store is a serial executor of transactions (exact for SQLite); SQLite's atomic commit and gocoro's lock-step are trusted. Postgres MVCC anomalies are not executed."),
+ "C03": dict(engine=A, design="4/C03",
+   technique="explicit-state enumeration of request sequences on the real kernel against a status oracle transcribed from the statement + exhaustive interleavings of racing retries with lost responses",
+   text="(i) Every sequence of length <=3 (4 thorough) over create / create-with-task / complete x idempotency key {absent,a,b} x strict x requested state, executed one at a time on the real kernel with the clock before/at/after the timeout, each response status compared with an oracle written from the property statement and each returned promise compared with the row; (ii) every interleaving of two clients each sending a request and its retry, with one injected failure (lost response or failed transaction) and the time-out sweep. Effect monitors at every commit: creation fields never change, no repeat creates a further task, at most one 201 per operation and id.",
+   note="Key domain {absent,a,b} (the code only tests equality); one promise id. Serial-store and SQLite/gocoro trust as for C01."),
+ "C04": dict(engine=A, design="4/C04",
+   technique="stateless model checking of the real kernel with the clock as an explored input (steps T-2..T+1 placed between any two transactions)",
+   text="Every interleaving of read/create/complete/search requests with the time-out sweep (promise batch size 1, 2, 100) and with clock steps around the deadline placed anywhere between their store transactions; promises created with a timeout in the past or exactly now. Monitors: no response of a request submitted at a clock >= timeout reports PENDING; a row becomes timed-out only at a clock >= timeout with empty value, null key and completedOn == timeout; a completion that decided at a clock >= timeout never installs the caller's state; nothing is reported timed out before the deadline.",
+   note="The kernel only ever sees the tick time, which the explorer owns; the wall clock read in Loop is outside. Two known findings (creation with an already elapsed timeout answers 201 PENDING)."),
+ "C05": dict(engine=A, design="4/C05",
+   technique="stateless model checking of the real kernel incl. both orders inside one SQL batch, cross-table invariants at every commit",
+   text="Every interleaving (including both orders inside one SQL transaction batch) of callback/subscription registrations and re-registrations with every completion path of the awaited promise (explicit, lazy time-out by read/create/search, background sweep), 0-3 existing registrations, one injected failure (two thorough) and one crash. At every commit: no registration refers to a non-pending promise; the completing commit turns exactly the registrations into tasks; a notification task leaves its initial state only through a command addressed to it; every acknowledged registration either reports a completed promise or left a registration/task.",
+   note="One awaited promise, two roots, three registration ids. F1 (stale PENDING acknowledgement) was repaired by a fix: commit; F9 (racing second completion finishes undelivered notification tasks) is a listed known finding."),
 }
 m = {
  "version": 1,
